@@ -418,8 +418,10 @@ class kMinPathErrorCycles(walkmodel.AbstractWalkModelDiGraph):
         non_empty_walks = []
         non_empty_weights = []
         non_empty_slacks = []
-        for walk, weight, slack in zip(solution["walks"], solution["weights"], solution["slacks"]):
-            if len(walk) > 1:
+        # In node mode a walk is empty iff its internal (node-expanded) walk is: [v.0, v.1] condenses to the one-node walk [v]
+        internal_walks = solution.get("_walks_internal", solution["walks"])
+        for walk, internal_walk, weight, slack in zip(solution["walks"], internal_walks, solution["weights"], solution["slacks"]):
+            if len(internal_walk) > 1:
                 non_empty_walks.append(walk)
                 non_empty_weights.append(weight)
                 non_empty_slacks.append(slack)
